@@ -17,7 +17,7 @@ FAULTY = [b'GET x HTTP/1.1\r\n\r\n', b'GET * HTTP/1.1\r\n\r\n', b'GET http://a/b
           b'POST /form-multipart-enctype-post-method HTTP/1.1\r\nContent-Type: multipart/form-data; boundary=B\r\n\r\n' + b'--B\r\nContent-Disposition: form-data; name="a"\r\n\r\n\r\n' * 150 + b'--B--\r\n',
           b'\xff\xfe\x00', b'', b'GET /../../etc/passwd HTTP/1.1\r\n\r\n', b'OPTIONS * HTTP/1.1\r\n\r\n',
           b'GET /f.txt HTTP/1.1\r\nRange: bytes=18446744073709551615-\r\n\r\n', b'HEAD /f.txt HTTP/9.9\r\n\r\n']
-KINDS = ['valid', 'faulty', 'early-close', 'rst-before', 'rst-after', 'half-sent', 'oversized']
+KINDS = ['valid', 'faulty', 'early-close', 'rst-before', 'rst-after', 'half-sent', 'oversized', 'oversized-malformed']
 
 def _conn(port, timeout=5):
     s = socket.create_connection(('127.0.0.1', port), timeout=timeout)
@@ -41,6 +41,12 @@ def one(server, kind, rng):
         elif kind == 'rst-before': _rst(s)
         elif kind == 'rst-after': s.sendall(VALID); _rst(s)
         elif kind == 'half-sent': s.sendall(b'GET /f.t'); s.close()
+        elif kind == 'oversized-malformed':
+            # an unparsable request that fills the request buffer, a little more, then an orderly close (FIN)
+            try:
+                s.sendall(b'\xfe' * rng.choice([10000, 10001, 12000, 19999])); s.shutdown(socket.SHUT_WR); s.settimeout(5); s.recv(65536)
+            except OSError: pass
+            s.close()
         elif kind == 'oversized':
             try: s.sendall(b'GET /f.txt HTTP/1.1\r\nX: ' + b'a' * 60000 + b'\r\n\r\n'); s.settimeout(5); s.recv(65536)
             except OSError: pass
